@@ -1062,3 +1062,348 @@ Theorem one_site_graph_sound_any (R : CRing) (t : table R) (rsel csel : list key
 Proof.
   apply (one_site_graph_sound R (fun _ => false)). intros x H. discriminate H.
 Qed.
+
+(* ================================================================== second wave: bond dimensions *)
+Lemma in_enum_nth {A} (l : list A) (d : A) : forall n i, i < length l -> In (n + i, nth i l d) (enum_from n l).
+Proof.
+  induction l as [|a l IH]; intros n i Hi; cbn [length] in Hi; [lia|]. cbn [enum_from].
+  destruct i as [|i]; cbn [nth].
+  - left. f_equal. lia.
+  - right. replace (n + S i) with (S n + i) by lia. apply IH. lia.
+Qed.
+
+Section BondDims.
+Variable R : CRing.
+Variable iszero : R -> bool.
+Local Notation table := (table R).
+Local Notation bond := (bond R).
+
+Lemma graph_bond_size (t : table) (rsel csel : list key) :
+  length (fst (decompose_graph R t rsel csel)) = cover_size rsel csel.
+Proof. unfold decompose_graph, out_rows, out_cols, cover_size. cbn [fst]. now rewrite app_length, !map_length. Qed.
+
+Definition is_min_cover (t : table) (rsel csel : list key) : Prop :=
+  forall rs cs, covers R t rs cs -> cover_size rsel csel <= cover_size rs cs.
+
+(* one cut: with a minimum cover the new bond has at most as many operators as there are distinct row
+   keys (previous bond index, operator on this site) and at most as many as distinct column keys *)
+Lemma bond_le_rows_step (t : table) rsel csel (rs0 : list key) :
+  is_min_cover t rsel csel -> (forall x, In x t -> In (rk R x) rs0) ->
+  length (fst (decompose_graph R t rsel csel)) <= length rs0.
+Proof.
+  intros Hmin H. rewrite graph_bond_size. specialize (Hmin rs0 []). unfold cover_size in *. cbn [length] in Hmin.
+  rewrite Nat.add_0_r in Hmin. apply Hmin. intros x Hx. left. apply H, Hx.
+Qed.
+Lemma bond_le_cols_step (t : table) rsel csel (cs0 : list key) :
+  is_min_cover t rsel csel -> (forall x, In x t -> In (ck R x) cs0) ->
+  length (fst (decompose_graph R t rsel csel)) <= length cs0.
+Proof.
+  intros Hmin H. rewrite graph_bond_size. specialize (Hmin [] cs0). unfold cover_size in *. cbn [length] in Hmin.
+  apply Hmin. intros x Hx. right. apply H, Hx.
+Qed.
+
+(* the part of a row after the bond index *)
+Definition tails (t : table) : list key := map (fun x => skipn 1 (fst x)) t.
+Definition same_set (A B : list key) : Prop := forall c, In c A <-> In c B.
+
+Lemma skipn_1_skipn {A} n (l : list A) : skipn 1 (skipn n l) = skipn (S n) l.
+Proof. revert l. induction n as [|n IH]; intros l; [reflexivity|]. destruct l as [|a l]; [reflexivity|]. cbn [skipn]. apply IH. Qed.
+Lemma ck_tails (t : table) : map (ck R) t = map (skipn 1) (tails t).
+Proof. unfold tails. rewrite map_map. apply map_ext. intros x. unfold ck. symmetry. apply (skipn_1_skipn 1). Qed.
+
+(* the remainders of the rows are exactly the old column keys: nothing is lost, nothing is invented *)
+Lemma step_tails (t : table) rsel csel :
+  covers R t rsel csel -> incl csel (map (ck R) t) ->
+  same_set (tails (snd (decompose_graph R t rsel csel))) (map (ck R) t).
+Proof.
+  intros Hcov Hsub c. unfold decompose_graph, tails. cbn [snd]. rewrite map_app, in_app_iff. split.
+  - intros [H|H].
+    + unfold new_rows in H. rewrite in_map_iff in H. destruct H as [y [E Hy]]. apply in_flat_map in Hy.
+      destruct Hy as [ir [_ Hy]]. apply in_map_iff in Hy. destruct Hy as [x [Ex Hx]]. apply filter_In in Hx.
+      subst y. cbn [fst skipn] in E. subst c. apply in_map, Hx.
+    + unfold new_cols in H. rewrite map_map in H. cbn [fst skipn] in H. apply in_map_iff in H. destruct H as [jc [E Hjc]].
+      subst c. destruct jc as [j c']. apply in_enum_from in Hjc. apply Hsub. cbn [snd]. tauto.
+  - intros H. apply in_map_iff in H. destruct H as [x [E Hx]]. subst c. destruct (Hcov x Hx) as [Hr|Hc].
+    + left. apply In_nth with (d := []) in Hr. destruct Hr as [i [Hi Hn]].
+      apply in_map_iff. exists (i :: ck R x, fac R x). split; [reflexivity|].
+      unfold new_rows. apply in_flat_map. exists (i, rk R x). split.
+      * rewrite <- Hn. apply (in_enum_nth rsel [] 0 i Hi).
+      * cbn [fst snd]. apply in_map_iff. exists x. split; [reflexivity|]. apply filter_In. split; [assumption|apply keqb_refl].
+    + right. apply In_nth with (d := []) in Hc. destruct Hc as [j [Hj Hn]].
+      unfold new_cols. rewrite map_map. cbn [fst skipn]. apply in_map_iff. exists (length rsel + j, ck R x). split; [reflexivity|].
+      rewrite <- Hn. apply (in_enum_nth csel [] (length rsel) j Hj).
+Qed.
+
+(* sweeps of graph steps whose witnesses are minimum covers inside the columns of their tables *)
+Fixpoint min_sweep (ws : list (wit R)) (t : table) : Prop :=
+  match ws with
+  | [] => True
+  | WG _ rs cs :: r => covers R t rs cs /\ incl cs (map (ck R) t) /\ is_min_cover t rs cs
+                       /\ min_sweep r (snd (decompose_graph R t rs cs))
+  | WQ _ _ _ _ _ _ :: _ => False
+  end.
+
+(* every cut: the bond after site i+j+1 has as many operators as its witness cover has vertices ... *)
+Theorem sweep_bond_dims (ws : list (wit R)) : forall t, graph_sweep R ws = true ->
+  bond_dims R (fst (sweep R iszero ws t))
+  = map (fun w => match w with WG _ rs cs => cover_size rs cs | WQ _ _ _ _ _ _ => 0 end) ws.
+Proof.
+  induction ws as [|w ws IH]; intros t H; [reflexivity|]. destruct w as [rs cs|]; [|discriminate].
+  cbn [sweep fst snd bond_dims map step]. f_equal; [apply graph_bond_size|]. apply IH, H.
+Qed.
+
+(* ... and at most as many as there are distinct right remainders (sites beyond the cut) in the ORIGINAL table:
+   cs0 is any list containing the remainder of every original row *)
+Theorem bond_le_cols (ws : list (wit R)) : forall (t t0 : table) (i : nat),
+  same_set (tails t) (map (fun x => skipn (S i) (fst x)) t0) -> min_sweep ws t ->
+  forall j (cs0 : list key), j < length ws ->
+    (forall x, In x t0 -> In (skipn (S (S (i + j))) (fst x)) cs0) ->
+    length (nth j (fst (sweep R iszero ws t)) []) <= length cs0.
+Proof.
+  induction ws as [|w ws IH]; intros t t0 i HJ Hm j cs0 Hj Hcs; cbn [length] in Hj; [lia|].
+  destruct w as [rs cs|]; [|destruct Hm]. destruct Hm as (Hcov & Hsub & Hmin & Hrest).
+  assert (Hck : forall c, In c (map (ck R) t) <-> In c (map (fun x => skipn (S (S i)) (fst x)) t0)).
+  { intros c. rewrite ck_tails. split; intros H; apply in_map_iff in H; destruct H as [y [E Hy]]; subst c.
+    - apply HJ in Hy. apply in_map_iff in Hy. destruct Hy as [x [E Hx]]. subst y. rewrite skipn_1_skipn.
+      apply in_map_iff. exists x. tauto.
+    - rewrite <- skipn_1_skipn. apply in_map. apply HJ. apply in_map_iff. exists y. tauto. }
+  cbn [sweep fst snd step]. destruct j as [|j]; cbn [nth].
+  - apply bond_le_cols_step; [assumption|]. intros x Hx. rewrite Nat.add_0_r in Hcs.
+    assert (H : In (ck R x) (map (ck R) t)) by (apply in_map, Hx). apply Hck in H.
+    apply in_map_iff in H. destruct H as [y [E Hy]]. rewrite <- E. apply Hcs, Hy.
+  - apply (IH _ t0 (S i)); [| assumption | lia |].
+    + intros c. rewrite (step_tails t rs cs Hcov Hsub c). apply Hck.
+    + intros x Hx. replace (S i + j) with (i + S j) by lia. apply Hcs, Hx.
+Qed.
+
+(* rows: at every cut the bound is the number of distinct row keys of the CURRENT table, i.e. distinct pairs
+   (operator of the previous bond, operator on this site).  For the first cut these are the distinct left
+   parts of the original table.  The bound by the distinct left parts of the ORIGINAL table at later cuts
+   needs Koenig's matching (each selected column matched to an unselected row) and is NOT proved here:
+   bond_le_left_parts_partial. *)
+Theorem bond_le_rows_current (ws : list (wit R)) : forall (t : table),
+  min_sweep ws t -> forall j (rs0 : list key), j < length ws ->
+    (forall x, In x (nth j (sweep_tables R iszero ws t) []) -> In (rk R x) rs0) ->
+    length (nth j (fst (sweep R iszero ws t)) []) <= length rs0.
+Proof.
+  induction ws as [|w ws IH]; intros t Hm j rs0 Hj Hrs; cbn [length] in Hj; [lia|].
+  destruct w as [rs cs|]; [|destruct Hm]. destruct Hm as (Hcov & Hsub & Hmin & Hrest).
+  cbn [sweep fst snd step sweep_tables] in *. destruct j as [|j]; cbn [nth] in *.
+  - apply bond_le_rows_step; assumption.
+  - apply IH; [assumption|lia|assumption].
+Qed.
+Theorem bond_le_left_parts_partial (ws : list (wit R)) (t0 : table) (ls0 : list key) :
+  min_sweep ws t0 -> 0 < length ws -> (forall x, In x t0 -> In (firstn 2 (fst x)) ls0) ->
+  length (nth 0 (fst (sweep R iszero ws t0)) []) <= length ls0.
+Proof.
+  intros Hm Hl H. apply (bond_le_rows_current ws t0 Hm 0 ls0 Hl).
+  destruct ws; [cbn [length] in Hl; lia|]. cbn [sweep_tables nth]. exact H.
+Qed.
+
+End BondDims.
+
+(* ================================================================== second wave: quantum-number labels *)
+Lemma nth_map_in {A B} (f : A -> B) (l : list A) i dA dB : i < length l -> nth i (map f l) dB = f (nth i l dA).
+Proof. revert i. induction l as [|a l IH]; intros i Hi; cbn [length] in Hi; [lia|]. destruct i; cbn [map nth]; [reflexivity|]. apply IH. lia. Qed.
+
+Section QnLabels.
+Variable R : CRing.
+Variable iszero : R -> bool.
+Hypothesis iszero_sound : forall x, iszero x = true -> x = r0 R.
+Variable pq : nat -> Z.
+Local Open Scope Z_scope.
+Local Notation table := (table R).
+Local Notation bond := (bond R).
+
+(* a row (a :: rest): label of bond operator a + charge of the remaining operators = total charge q *)
+Definition row_inv (q : Z) (lab : list Z) (x : trow R) : Prop :=
+  exists a rest, fst x = a :: rest /\ nth a lab 0 + charge pq rest = q.
+Definition tab_inv (q : Z) (lab : list Z) (t : table) : Prop := forall x, In x t -> row_inv q lab x.
+(* every summand of an out-op carries the label stored for the out-op (the label read off the first summand
+   is the label of all of them): these are labels of the operator to the LEFT of the bond *)
+Definition outop_uniform (lab : list Z) (oo : outop R) : Prop :=
+  forall p, In p oo -> exists a o, fst p = [a; o] /\ nth a lab 0 + pq o = qn_outop R pq lab oo.
+Fixpoint labels_ok (lab : list Z) (bs : list bond) : Prop :=
+  match bs with
+  | [] => True
+  | b :: r => (forall oo, In oo b -> outop_uniform lab oo) /\ labels_ok (bond_labels R pq lab b) r
+  end.
+Fixpoint qn_sweep (ws : list (wit R)) (t : table) : Prop :=
+  match ws with
+  | [] => True
+  | WG _ rs cs :: r => incl rs (map (rk R) t) /\ cols_nonempty R t rs cs = true
+                       /\ qn_sweep r (snd (decompose_graph R t rs cs))
+  | WQ _ _ _ _ _ _ :: _ => False
+  end.
+
+Lemma key_shape (k : key) : (2 <= length k)%nat -> exists a o, k = a :: o :: skipn 2 k /\ firstn 2 k = [a; o].
+Proof. destruct k as [|a [|o k]]; cbn [length]; try lia. intros _. exists a, o. split; reflexivity. Qed.
+Lemma charge_cons o k : charge pq (o :: k) = pq o + charge pq k.
+Proof. reflexivity. Qed.
+Lemma charge_app k1 k2 : charge pq (k1 ++ k2) = charge pq k1 + charge pq k2.
+Proof. induction k1 as [|o k1 IH]; cbn [app]; [reflexivity|]. rewrite !charge_cons, IH. lia. Qed.
+Lemma nth_bond_labels lab (b : bond) i : nth i (bond_labels R pq lab b) 0 = qn_outop R pq lab (nth i b []).
+Proof. unfold bond_labels. change 0 with (qn_outop R pq lab []) at 1. apply map_nth. Qed.
+Lemma row_inv_shape q lab (x : trow R) a o :
+  row_inv q lab x -> fst x = a :: o :: skipn 2 (fst x) -> nth a lab 0 + pq o + charge pq (ck R x) = q.
+Proof.
+  intros (a' & rest & E & H) Es. rewrite Es in E. injection E as E1 E2. subst a' rest. rewrite charge_cons in H. unfold ck. cbn [skipn] in *. lia.
+Qed.
+Lemma cols_nonempty_sound (t : table) rs cs c :
+  cols_nonempty R t rs cs = true -> In c cs ->
+  exists x0 l, filter (fun x => keqb (ck R x) c && negb (memb (rk R x) rs)) t = x0 :: l.
+Proof.
+  unfold cols_nonempty. intros H Hc. rewrite forallb_forall in H. specialize (H c Hc). apply existsb_exists in H.
+  destruct H as [x [Hx HP]].
+  destruct (filter (fun x => keqb (ck R x) c && negb (memb (rk R x) rs)) t) as [|x0 l] eqn:Ef; [|eauto].
+  assert (Hin : In x (filter (fun x => keqb (ck R x) c && negb (memb (rk R x) rs)) t)) by (apply filter_In; tauto).
+  rewrite Ef in Hin. destruct Hin.
+Qed.
+
+Lemma graph_step_labels q lab (t : table) rs cs :
+  (forall x, In x t -> (2 <= length (fst x))%nat) -> tab_inv q lab t ->
+  incl rs (map (rk R) t) -> cols_nonempty R t rs cs = true ->
+  (forall oo, In oo (fst (decompose_graph R t rs cs)) -> outop_uniform lab oo)
+  /\ tab_inv q (bond_labels R pq lab (fst (decompose_graph R t rs cs))) (snd (decompose_graph R t rs cs)).
+Proof.
+  intros Hlen Hinv Hrs Hne. unfold decompose_graph. cbn [fst snd].
+  (* label of the complementary operator of a selected column *)
+  assert (Hcol : forall c, In c cs ->
+            let oo := map (fun x => (rk R x, fac R x)) (filter (fun x => keqb (ck R x) c && negb (memb (rk R x) rs)) t) in
+            qn_outop R pq lab oo + charge pq c = q /\ outop_uniform lab oo).
+  { intros c Hc oo. destruct (cols_nonempty_sound t rs cs c Hne Hc) as (x0 & l & Ef).
+    assert (Hall : forall x, In x (filter (fun x => keqb (ck R x) c && negb (memb (rk R x) rs)) t) ->
+              exists a o, rk R x = [a; o] /\ nth a lab 0 + pq o + charge pq c = q).
+    { intros x Hx. apply filter_In in Hx. destruct Hx as [Hx HP]. apply andb_true_iff in HP. destruct HP as [HP _].
+      destruct (keqb_spec (ck R x) c) as [Ec|]; [|discriminate].
+      destruct (key_shape (fst x) (Hlen x Hx)) as (a & o & Es & Ef2). exists a, o. split; [exact Ef2|].
+      rewrite <- Ec. apply (row_inv_shape q lab x a o (Hinv x Hx) Es). }
+    assert (Hq : qn_outop R pq lab oo + charge pq c = q).
+    { unfold oo. rewrite Ef. cbn [map qn_outop fst].
+      destruct (Hall x0) as (a & o & E1 & E2); [rewrite Ef; left; reflexivity|]. rewrite E1. exact E2. }
+    split; [exact Hq|]. intros p Hp. unfold oo in Hp. apply in_map_iff in Hp. destruct Hp as [x [Ex Hx]]. subst p. cbn [fst].
+    destruct (Hall x Hx) as (a & o & E1 & E2). exists a, o. split; [exact E1|]. fold oo. lia. }
+  split.
+  - intros oo Hoo. apply in_app_or in Hoo. destruct Hoo as [Hoo|Hoo].
+    + unfold out_rows in Hoo. apply in_map_iff in Hoo. destruct Hoo as [r [E Hr]]. subst oo.
+      apply Hrs in Hr. apply in_map_iff in Hr. destruct Hr as [x [Ex Hx]].
+      destruct (key_shape (fst x) (Hlen x Hx)) as (a & o & Es & Ef). unfold rk in Ex. rewrite Ef in Ex. subst r.
+      intros p [<-|[]]. exists a, o. split; reflexivity.
+    + unfold out_cols in Hoo. apply in_map_iff in Hoo. destruct Hoo as [c [E Hc]]. subst oo. apply (Hcol c Hc).
+  - intros y Hy. apply in_app_or in Hy. destruct Hy as [Hy|Hy].
+    + unfold new_rows in Hy. apply in_flat_map in Hy. destruct Hy as [[i r] [Hir Hy]]. cbn [fst snd] in Hy.
+      apply in_map_iff in Hy. destruct Hy as [x [Ey Hx]]. apply filter_In in Hx. destruct Hx as [Hx Hr].
+      destruct (keqb_spec (rk R x) r) as [Er|]; [|discriminate]. subst y.
+      destruct (in_enum_from_nth rs [] _ _ _ Hir) as [Hi En]. rewrite Nat.sub_0_r in En. cbn [Nat.add] in Hi.
+      exists i, (ck R x). split; [reflexivity|]. rewrite nth_bond_labels.
+      rewrite app_nth1 by (unfold out_rows; rewrite map_length; lia).
+      unfold out_rows.
+      match goal with |- context [@nth ?A i ?m ?d] => assert (Enth : @nth A i m d = [(r, r1 R)]) end.
+      { etransitivity; [apply (nth_map_in (fun r0 : key => [(r0, r1 R)]) rs i [] []); lia|]. rewrite <- En. reflexivity. }
+      rewrite Enth.
+      destruct (key_shape (fst x) (Hlen x Hx)) as (a & o & Es & Ef). unfold rk in Er. rewrite Ef in Er. subst r.
+      cbn [qn_outop fst]. apply (row_inv_shape q lab x a o (Hinv x Hx) Es).
+    + unfold new_cols in Hy. apply in_map_iff in Hy. destruct Hy as [[j c] [Ey Hjc]]. cbn [fst snd] in Ey. subst y.
+      destruct (in_enum_from_nth cs [] _ _ _ Hjc) as [Hj En].
+      exists j, c. split; [reflexivity|]. rewrite nth_bond_labels.
+      rewrite app_nth2 by (unfold out_rows; rewrite map_length; lia).
+      unfold out_rows at 1. rewrite map_length. unfold out_cols.
+      set (g := fun c0 : key => map (fun x => (rk R x, fac R x)) (filter (fun x => keqb (ck R x) c0 && negb (memb (rk R x) rs)) t)).
+      match goal with |- context [@nth ?A (j - length rs) ?m ?d] => assert (Enth : @nth A (j - length rs) m d = g c) end.
+      { etransitivity; [apply (nth_map_in g cs (j - length rs) [] []); lia|]. rewrite <- En. reflexivity. }
+      rewrite Enth. assert (Hc : In c cs) by (rewrite En; apply nth_In; lia).
+      apply (proj1 (Hcol c Hc)).
+Qed.
+
+Lemma last_cons {A} (l : list A) : forall (a d : A), last (a :: l) d = last l a.
+Proof.
+  induction l as [|b l IH]; intros a d; [reflexivity|].
+  change (last (a :: b :: l) d) with (last (b :: l) d). rewrite (IH b d), (IH b a). reflexivity.
+Qed.
+
+(* all rows share the total charge q  ==>  along the whole graph sweep every bond label is well defined
+   (all summands agree) and the remaining table stays consistent with the labels of the last bond *)
+Theorem sweep_qn_labels (ws : list (wit R)) : forall (t : table) (lab : list Z) (q : Z),
+  (forall x, In x t -> (length ws + 1 <= length (fst x))%nat) -> tab_inv q lab t -> qn_sweep ws t ->
+  labels_ok lab (fst (sweep R iszero ws t))
+  /\ tab_inv q (last (labels_chain R pq lab (fst (sweep R iszero ws t))) lab) (snd (sweep R iszero ws t)).
+Proof.
+  induction ws as [|w ws IH]; intros t lab q Hlen Hinv Hs; [split; [exact I|exact Hinv]|].
+  destruct w as [rs cs|]; [|destruct Hs]. destruct Hs as (Hrs & Hne & Hrest).
+  cbn [sweep fst snd step labels_chain labels_ok].
+  assert (Hlen2 : forall x, In x t -> (2 <= length (fst x))%nat) by (intros x Hx; specialize (Hlen x Hx); cbn [length] in Hlen; lia).
+  destruct (graph_step_labels q lab t rs cs Hlen2 Hinv Hrs Hne) as [Hu Hinv'].
+  assert (Hlen' : forall y, In y (snd (decompose_graph R t rs cs)) -> (length ws + 1 <= length (fst y))%nat).
+  { intros y Hy. unfold decompose_graph in Hy. cbn [snd] in Hy. apply in_app_or in Hy. destruct Hy as [Hy|Hy].
+    - unfold new_rows in Hy. apply in_flat_map in Hy. destruct Hy as [ir [_ Hy]]. apply in_map_iff in Hy.
+      destruct Hy as [x [Ey Hx]]. apply filter_In in Hx. destruct Hx as [Hx _]. subst y. cbn [fst length].
+      unfold ck. rewrite skipn_length. specialize (Hlen x Hx). cbn [length] in Hlen. lia.
+    - unfold new_cols in Hy. apply in_map_iff in Hy. destruct Hy as [[j c] [Ey Hjc]]. subst y. cbn [fst snd length].
+      apply in_enum_from in Hjc. destruct Hjc as [_ Hc].
+      destruct (cols_nonempty_sound t rs cs c Hne Hc) as (x0 & l & Ef).
+      assert (Hx0 : In x0 (filter (fun x => keqb (ck R x) c && negb (memb (rk R x) rs)) t)) by (rewrite Ef; left; reflexivity).
+      apply filter_In in Hx0. destruct Hx0 as [Hx0 HP]. apply andb_true_iff in HP. destruct HP as [HP _].
+      destruct (keqb_spec (ck R x0) c) as [<-|]; [|discriminate].
+      unfold ck. rewrite skipn_length. specialize (Hlen x0 Hx0). cbn [length] in Hlen. lia. }
+  destruct (IH _ _ q Hlen' Hinv' Hrest) as [H1 H2]. split; [split; assumption|].
+  rewrite last_cons. exact H2.
+Qed.
+
+Lemma fast_path_labels ops f : forall l0, ops <> [] ->
+  labels_ok [l0] (fast_path R ops f)
+  /\ nth 0 (last (labels_chain R pq [l0] (fast_path R ops f)) [l0]) 0 = l0 + charge pq ops.
+Proof.
+  induction ops as [|o ops IH]; intros l0 Hne; [congruence|]. destruct ops as [|o2 ops].
+  - cbn [fast_path labels_ok labels_chain bond_labels map last qn_outop fst nth charge fold_right]. split; [|lia].
+    split; [|exact I]. intros oo [<-|[]] p [<-|[]]. exists 0%nat, o. split; reflexivity.
+  - change (fast_path R (o :: o2 :: ops) f) with ([[([0; o], r1 R)]] :: fast_path R (o2 :: ops) f)%nat.
+    cbn [labels_ok labels_chain]. rewrite last_cons.
+    assert (E : bond_labels R pq [l0] [[([0%nat; o], r1 R)]] = [l0 + pq o]) by reflexivity. rewrite E.
+    destruct (IH (l0 + pq o)) as [H1 H2]; [discriminate|]. split.
+    + split; [|exact H1]. intros oo [<-|[]] p [<-|[]]. exists 0%nat, o. split; reflexivity.
+    + rewrite H2. rewrite (charge_cons o (o2 :: ops)). lia.
+Qed.
+
+(* mpo_qn_labels: all terms share the total charge q (identity index 0 uncharged) => the labels the
+   construction assigns are labels of the left parts (every summand of every bond operator carries the
+   stored label) and qntot = q.  Graph algorithms and the fast path. *)
+Theorem mpo_qn_labels (terms : table) (const : R) (idstr : key) (ws : list (wit R)) (bs : list bond) (q : Z) :
+  pq 0%nat = 0 -> (0 < length ws)%nat ->
+  (forall x, In x (terms_to_table R iszero terms const idstr) -> length (fst x) = length ws /\ charge pq (fst x) = q) ->
+  (length (terms_to_table R iszero terms const idstr) <> 1%nat ->
+     qn_sweep ws (extend R (terms_to_table R iszero terms const idstr))) ->
+  construct R iszero terms const idstr ws = Some bs ->
+  labels_ok [0] bs /\ qntot_of R pq bs = q.
+Proof.
+  intros Hp0 Hn Hrows Hws Hc. unfold construct in Hc. set (t0 := terms_to_table R iszero terms const idstr) in *.
+  assert (Hgen : length t0 <> 1%nat ->
+            (if final_okb R iszero (snd (sweep R iszero ws (extend R t0))) then Some (fst (sweep R iszero ws (extend R t0))) else None) = Some bs ->
+            labels_ok [0] bs /\ qntot_of R pq bs = q).
+  { intros H1 Hc'. destruct (final_okb R iszero (snd (sweep R iszero ws (extend R t0)))) eqn:Ef; [|discriminate].
+    inversion Hc'; subst bs. apply (final_okb_sound R iszero iszero_sound) in Ef.
+    destruct (sweep_qn_labels ws (extend R t0) [0] q) as [H2 H3].
+    - intros y Hy. unfold extend in Hy. apply in_map_iff in Hy. destruct Hy as [[k f] [<- Hx]].
+      destruct (Hrows (k, f) Hx) as [Hl _]. cbn [fst length] in *.
+      rewrite app_length. cbn [length]. lia.
+    - intros y Hy. unfold extend in Hy. apply in_map_iff in Hy. destruct Hy as [[k f] [<- Hx]].
+      destruct (Hrows (k, f) Hx) as [_ Hq]. cbn [fst] in *.
+      exists 0%nat, (k ++ [0%nat]). split; [reflexivity|]. rewrite charge_app. cbn [nth charge fold_right]. lia.
+    - apply Hws, H1.
+    - split; [exact H2|]. rewrite Ef in H3. destruct (H3 _ (or_introl eq_refl)) as (a & rest & E & H4).
+      cbn [fst] in E. inversion E; subst a rest. unfold qntot_of. cbn [charge fold_right] in H4. lia. }
+  destruct t0 as [|[ops f] [|y t1]] eqn:Et.
+  - apply Hgen; [discriminate|exact Hc].
+  - inversion Hc; subst bs. destruct (Hrows (ops, f) (or_introl eq_refl)) as [Hl Hq]. cbn [fst] in Hl, Hq.
+    assert (Hne : ops <> []) by (destruct ops; [cbn [length] in Hl; lia|discriminate]).
+    destruct (fast_path_labels ops f 0 Hne) as [H1 H2]. split; [exact H1|]. unfold qntot_of. rewrite H2. lia.
+  - apply Hgen; [cbn [length]; lia|exact Hc].
+Qed.
+
+Lemma qn_sweepb_sound (ws : list (wit R)) : forall t, qn_sweepb R ws t = true -> qn_sweep ws t.
+Proof.
+  induction ws as [|w ws IH]; intros t H; [exact I|]. destruct w as [rs cs|]; [|discriminate].
+  cbn [qn_sweepb qn_sweep] in *. apply andb_true_iff in H. destruct H as [H H3]. apply andb_true_iff in H. destruct H as [H1 H2].
+  repeat split; [apply subsetb_sound, H1|exact H2|apply IH, H3].
+Qed.
+
+End QnLabels.
